@@ -64,8 +64,8 @@ fn server_call(f: &mut AnyFlow, window: &[u8], out_len: usize, prop_site: &str) 
     let k = |c: &str| format!("C12:{}:{}", prop_site, c);
     let mut out = vec![0u8; out_len];
     let r = guarded(|| match f {
-        AnyFlow::Await100(a) => a.try_read_100(window).map(|n| (n, 0usize, "try_read_100")).map_err(|e| format!("{:?}", e)),
-        AnyFlow::RecvResponse(r) => r.try_response(window).map(|(n, _)| (n, 0usize, "try_response")).map_err(|e| format!("{:?}", e)),
+        AnyFlow::Await100(a) => crate::engine::with_aliased(window, |w| a.try_read_100(w)).map(|n| (n, 0usize, "try_read_100")).map_err(|e| format!("{:?}", e)),
+        AnyFlow::RecvResponse(r) => crate::engine::with_aliased(window, |w| r.try_response(w)).map(|(n, _)| (n, 0usize, "try_response")).map_err(|e| format!("{:?}", e)),
         AnyFlow::RecvBody(b) => b.read(window, &mut out).map(|(c, p)| (c, p, "read")).map_err(|e| format!("{:?}", e)),
         _ => Ok((0, 0, "none")),
     });
